@@ -81,7 +81,7 @@ Freshen(L, eff, T, g) ==
 Storable304(L, rq, g) == ~Has(rq, "no-store") /\ ~(L.sent[g].rep.ccp = 1 /\ Has(L.sent[g].rep, "no-store"))
 
 \* a background call whose outcome the cache may or may not have seen
-BgLate(L, c, rq) == c.ctxdone = 1 \/ (c.t1 - c.t0) * 1000 >= L.swr \/ rq.cancel # 0 \/ c.kind \in {"cancelled", "released"}
+BgLate(L, c, rq) == c.ctxdone = 1 \/ (c.t1 - c.t0) * 1000 >= L.swr \/ rq.cancel \in {1, 2} \/ c.kind \in {"cancelled", "released"}
 
 (***************************************************************************)
 (* ledger updates                                                          *)
@@ -153,7 +153,7 @@ OnCall(L, e, line) ==
   LET rq == L.open[e.x].rq
       c  == [ x |-> e.x, c |-> e.c, bg |-> e.bg, kind |-> e.kind, tag |-> e.tag, tok |-> e.tok,
               t0 |-> e.t0, t1 |-> e.t1, inm |-> e.inm, ims |-> e.ims, m |-> e.m, rng |-> e.rng,
-              oic |-> e.oic, st |-> e.rep.st, ctxdone |-> e.ctxdone, hsame |-> e.hsame, url |-> e.url ]
+              oic |-> e.oic, st |-> e.rep.st, ctxdone |-> e.ctxdone, hsame |-> e.hsame, usame |-> e.usame, url |-> e.url ]
       isResp == e.kind \in {"full", "304", "bodyerr"}
   IN [ L EXCEPT !.t = e.t1, !.gseq = Append(L.gseq, e.x),
          !.calls = Append(L.calls, c),
@@ -276,17 +276,20 @@ M02(L) ==
   /\ (IsRet(L) /\ L.last.fromStore /\ L.last.val304 /\ ~L.hadconc => ValidatorsOK(L))
   /\ (IsCall(L) =>
         LET c == L.last.c  rq == L.last.rq IN
-        /\ c.m = rq.m /\ c.rng = rq.range /\ c.hsame = 1
+        /\ c.m = rq.m /\ c.rng = rq.range /\ c.hsame = 1 /\ c.usame = 1
         /\ (rq.inm # 0 => c.inm # 0) /\ (rq.ims # 0 => c.ims # 0))
   /\ (L.last.kind = "mut" => L.last.e.req = 0)
 
 \* --- C03 ---------------------------------------------------------------
 A03(L) == IsRet(L) /\ L.last.fromStore /\ L.last.rq.ugap = 0 /\ L.tk[L.last.e.tok].rq.ugap = 0
-M03(L) == A03(L) =>
-  LET R == L.last  src == L.tk[R.e.tok].rq IN
-  /\ src.u = R.rq.u
-  /\ src.m = "GET" /\ src.range = 0
-  /\ R.rq.m = "GET" /\ R.rq.range = 0
+M03(L) ==
+  /\ (A03(L) =>
+        LET R == L.last  src == L.tk[R.e.tok].rq IN
+        /\ src.u = R.rq.u
+        /\ src.m = "GET" /\ src.range = 0
+        /\ R.rq.m = "GET" /\ R.rq.range = 0)
+  \* what is stored for a URI was fetched for that URI: the origin is asked for the URL the caller passed
+  /\ (IsCall(L) => L.last.c.usame = 1)
 
 \* --- C04 ---------------------------------------------------------------
 A04(L) == IsRet(L) /\ L.last.fromStore /\ ~L.last.val304 /\ L.last.e.h.unk = 0
@@ -428,6 +431,9 @@ M16(L) ==
   /\ (IsRet(L) /\ L.hadconc /\ (L.last.fromStore \/ L.last.ownTok) =>
         (L.tk[L.last.e.tok].incomplete \/ (L.last.e.bodyok = 1 /\ L.last.e.bodyerr = 0)) /\ L.last.e.stsame = 1)
   /\ (IsRet(L) => L.last.e.requnch = 1)
+  \* the request belongs to the caller again after the return: what the origin is sent is what the caller passed
+  \* then, not what it made of its request object later
+  /\ (IsCall(L) => L.last.c.hsame = 1 /\ L.last.c.usame = 1)
 
 \* --- C18 ---------------------------------------------------------------
 A18(L) == (IsRet(L) /\ Has(L.last.rq, "only-if-cached")) \/ (IsCall(L) /\ Has(L.last.rq, "only-if-cached"))
@@ -463,7 +469,7 @@ M20(L) ==
              /\ Len(bg) = 1
              /\ (bg[1].t1 - bg[1].t0) * 1000 <= L.swr + 999
              \* (logged times saturate at 2 * 10^9: no duration can be read off beyond that)
-             /\ (bg[1].kind = "cancelled" /\ bg[1].ctxdone = 1 /\ L.open[s.x].rq.cancel = 0 /\ bg[1].t1 < 2000000000
+             /\ (bg[1].kind = "cancelled" /\ bg[1].ctxdone = 1 /\ L.open[s.x].rq.cancel \notin {1, 2} /\ bg[1].t1 < 2000000000
                    => (bg[1].t1 - bg[1].t0) * 1000 >= L.swr)
              /\ (s.etag > 0 => bg[1].inm = s.etag)
              /\ (s.lm >= 0 => bg[1].ims = s.lm))
